@@ -60,7 +60,17 @@ def gen_scenario(rng, cfg):
             if not any(w["fd"] == 2 for w in role["writes"]):
                 role["writes"].append({"fd": 2, "hex": ("m-%s-err\n" % name).encode().hex()})
             inner = [{"kind": "pup", "name": name, "role": role, "text": "pup " + name, "redirs": redirs}]
-            inner_text = plines.render_stage(inner[0])
+            if rng.chance(40):
+                # an inner pipeline: its first stage may merge its streams into the stage pipe
+                up_redirs = [{"k": "dup", "from": 2, "to": 1}] if rng.chance(50) else \
+                    ([{"k": "dup", "from": 1, "to": 2, "explicit1": rng.chance(50)}] if rng.chance(40) else [])
+                up = {"kind": "pup", "name": name + "u", "text": "pup " + name + "u", "redirs": up_redirs,
+                      "role": {"t": "io", "read": "none", "code": 0, "on_epipe": "exit", "writes": [
+                          {"fd": 1, "hex": ("m-%su-out\n" % name).encode().hex()},
+                          {"fd": 2, "hex": ("m-%su-err\n" % name).encode().hex()}]}}
+                role["read"] = "all"
+                inner = [up] + inner
+            inner_text = " | ".join(plines.render_stage(x) for x in inner)
             sub = "$(%s)" % inner_text if rng.chance(60) else "`%s`" % inner_text
             outer = [{"kind": "pup", "name": "c%d_o" % ci, "text": "pup c%d_o" % ci, "args": ["w" + sub],
                       "role": {"t": "io", "read": "none", "writes": [], "code": 0}, "redirs": []}]
